@@ -20,6 +20,9 @@ pub struct Lin {
     pub s: usize,
     /// unit roundoff of the scalar type under test
     pub ut: f64,
+    /// smallest positive normal number of the scalar type under test (absolute slack for
+    /// results in the subnormal range)
+    pub tiny: f64,
     /// threshold as the code uses it: |eps| rounded to T, or machine epsilon of T
     pub eps: f64,
     /// weights (ones if none)
@@ -112,7 +115,7 @@ impl Lin {
             let u = rs.u.as_ref().map(Mat::from_na);
             (c, u)
         };
-        Ok(Lin { n: sh.n, m: sh.m, s: sh.s, ut, eps, w, a, phi, b, svd: sv, delta, sure_kept, maybe_kept, class, c_ref, u_ref })
+        Ok(Lin { n: sh.n, m: sh.m, s: sh.s, ut, tiny: T::min_positive_value().f(), eps, w, a, phi, b, svd: sv, delta, sure_kept, maybe_kept, class, c_ref, u_ref })
     }
 
     pub fn k(&self) -> f64 {
@@ -271,7 +274,7 @@ impl Lin {
             for i in 0..self.n {
                 let want = self.b.at(i, col) - ac.at(i, col);
                 let got = res[i + col * self.n];
-                let bound = kc * self.ut * (self.b.at(i, col).abs() + abs_ac.at(i, col)) + 4.0 * f64::MIN_POSITIVE;
+                let bound = kc * self.ut * (self.b.at(i, col).abs() + abs_ac.at(i, col)) + kc * self.tiny;
                 if !((got - want).abs() <= bound) {
                     return Err(Fail::new(
                         "c02.residual_identity",
